@@ -15,7 +15,10 @@ import DarkluaModel.Rules.ConvertIndexToField
 import DarkluaModel.Rules.NilDeclaration
 import DarkluaModel.Rules.UnusedVariable
 import DarkluaModel.Rules.UnusedVariableHeap
+import DarkluaModel.Rules.UnusedVariableHeapV
+import DarkluaModel.Rules.UnusedVariableHeapV2
 import DarkluaModel.Rules.NilDeclarationHeap
+import DarkluaModel.Rules.NilDeclarationHeap2
 /-! Line-protocol handlers for property C01:
 * `c01.rule <rule-name-hex> <block>` → transformed block (the evaluator instance is the C08 model
   over IEEE doubles, `Rules/EvalC08.lean`);
@@ -93,18 +96,23 @@ def handle (op : String) (args : List String) : String :=
     | some n, some b => region n b
     | _, _ => "bad-request"
   | "ndguard", some [block] =>
-    -- hypothesis `H` of `rule_refines_remove_nil_declaration_partial`
+    -- hypotheses `H` of `rule_refines_remove_nil_declaration_partial` (atoms) / `…_partial2` (arbitrary values)
     match Block.ofSexp? block with
     | some b =>
-      if (Rules.NilDeclaration.Guarded.applyG driverApi b).toSexp.toString
-          == (Rules.NilDeclaration.apply driverApi b).toSexp.toString then "in" else "out"
+      let out := (Rules.NilDeclaration.apply driverApi b).toSexp.toString
+      if (Rules.NilDeclaration.Guarded.applyG driverApi b).toSexp.toString == out then "in (atomic values)"
+      else if (Rules.NilDeclaration.General.applyG driverApi b).toSexp.toString == out then "in (arbitrary values, no surplus value)"
+      else "out"
     | none => "bad-request"
   | "uvguard", some [block] =>
-    -- hypothesis `H` of `rule_refines_remove_unused_variable_partial`: does the rule agree with its guarded version?
+    -- hypotheses `H` of `rule_refines_remove_unused_variable_partial` (stage 3) / `…_partialV` (stage 4)
     match Block.ofSexp? block with
     | some b =>
-      if (Rules.UnusedVariable.Guarded.applyG driverApi b).toSexp.toString
-          == (Rules.UnusedVariable.apply driverApi b).toSexp.toString then "in" else "out"
+      let out := (Rules.UnusedVariable.apply driverApi b).toSexp.toString
+      if (Rules.UnusedVariable.Guarded.applyG driverApi b).toSexp.toString == out then "in (stage 3: cells)"
+      else if (Rules.UnusedVariable.GuardedV.applyG driverApi b).toSexp.toString == out then "in (stage 4: cells, tables, closures)"
+      else if (Rules.UnusedVariable.GuardedV2.applyG driverApi b).toSexp.toString == out then "in (stage 4 + unused call-valued declarations)"
+      else "out"
     | none => "bad-request"
   | "rules", _ => " ".intercalate modelled
   | _, _ => "unknown-op " ++ op
